@@ -140,7 +140,20 @@ fn builder_case(seed: u64) -> Result<(), String> {
         let before = b.as_bytes().to_vec();
         let use_text = lcg(&mut s) % 5 == 0 && d.text_ref.is_some();
         let (ok, what) = if lcg(&mut s) % 11 == 0 {
-            (b.set_prm("no-such-prm", v).is_ok(), format!("step {step}: set_prm(no-such-prm, {v})"))
+            // statement: "unknown names are rejected and leave the block unchanged" - also names that are *close* to a defined
+            // one (other capitalisation, surrounding blank, prefix, empty); none of them is defined in `fields`
+            let near: String = match lcg(&mut s) % 7 {
+                0 => "no-such-prm".to_string(),
+                1 => d.name.to_uppercase(),
+                2 => { let mut c = d.name.chars(); let f = c.next().unwrap(); f.to_uppercase().chain(c).collect() }
+                3 => format!("{} ", d.name),
+                4 => format!(" {}", d.name),
+                5 => d.name[..d.name.len() - 1].to_string(),
+                _ => String::new(),
+            };
+            let ok = if lcg(&mut s) % 3 == 0 { b.set_prm_from_text(&near, "on").is_ok() } else { b.set_prm(&near, v).is_ok() };
+            if ok { return Err(format!("step {step}: undefined parameter name {near:?} was accepted")); }
+            (ok, format!("step {step}: set_prm({near:?}, {v})"))
         } else if use_text {
             let texts = d.text_ref.as_ref().unwrap();
             let keys: Vec<&String> = texts.keys().collect();
